@@ -1,11 +1,13 @@
 (* C01 (partial): on a state that satisfies the C09 invariant no operation of the terminal core panics, and one
-   character of any emulation panics only at a KNOWN site (stream-supplied font, non-scalar fill character). *)
+   character of the ANSI parser (any parser state, no stored macro) yields an action or an error value: no panic site
+   of the model is reachable and the macro recursion is not entered.  (The two classes that used to be carved out,
+   stream-supplied font and non-scalar DECFRA fill character, are repaired in the merged tree.) *)
 From Coq Require Import ZArith NArith List Bool Lia.
 From IE Require Import Model.TermCore Model.AnsiTok Model.Emu Proofs.TermProofs Proofs.AnsiProofs Proofs.EmuProofs.
+From IE Require Lib.C17Lib Model.Font Proofs.FontDcsSafe.
 Import ListNotations.
 Local Open Scope Z_scope.
 
-Definition KnownC01 (site : Z) : Prop := site = SITE_FONT \/ site = SITE_FILL_CHAR.
 Definition okr (r : res term) : Prop := exists t', r = ROk t'.
 
 (* ---- terminal core: no panic under the invariant -------------------------------------------------------------------- *)
@@ -133,7 +135,7 @@ Proof.
 Qed.
 
 (* ---- one character ---------------------------------------------------------------------------------------------------------- *)
-Definition Safe (o : outcome) : Prop := match o with OPanic s => KnownC01 s | _ => True end.
+Definition Safe (o : outcome) : Prop := match o with OPanic _ | ODiverge => False | _ => True end.
 Lemma safe_lift : forall r p, okr r -> Safe (lift r p).
 Proof. intros r p [t' E]. rewrite E. exact I. Qed.
 
@@ -214,12 +216,14 @@ Proof.
            | |- Safe (match nums p with _ => _ end) => destruct (nums p) as [|n1 [|n2 [|n3 [|n4 [|n5 [|n6 [|n7 r]]]]]]]
            | |- Safe (let '(_, _) := ?x in _) => destruct x
            end; try exact I; try (slift HI).
-    all: try (right; reflexivity).
     all: try (match goal with |- Safe (match ?f ?a ?b ?c with _ => _ end) =>
                 pose proof (Hinv a b c HI eq_refl) as G; destruct (f a b c); exact G end).
     all: repeat match goal with |- Safe (match ?z with _ => _ end) => destruct z end; try exact I.
   - sifs; exact I.
-  - sifs; try exact I. unfold execute_dcs. destruct (starts_with _ _); [left; reflexivity|].
+  - sifs; try exact I. unfold execute_dcs. destruct (starts_with _ _).
+    { unfold load_custom_font.
+      pose proof (FontDcsSafe.font_dcs_total Base64.decode (map Z.to_N (rev (pstr (dflt p))))) as T.
+      destruct (Font.load_custom_font _ _) as [[slot f]|e|s|]; first [exact I|exact T]. }
     destruct (lead_nums _ _). repeat match goal with |- Safe (match ?x with _ => _ end) => destruct x end; exact I.
   - sifs; try exact I. all: try (apply Hinv; [exact HI|reflexivity]).
     all: repeat match goal with |- Safe (match ?z with _ => _ end) => destruct z end; try exact I; try (apply Hinv; [exact HI|reflexivity]).
@@ -234,8 +238,8 @@ Proof.
            end; exact I.
 Qed.
 
-(* one character of the ANSI parser on a state that satisfies the C09 invariant and holds no stored macro: the only
-   panics are the known ones.  (With stored macros the replay may execute a text-area resize in the middle of a
+(* one character of the ANSI parser on a state that satisfies the C09 invariant and holds no stored macro: an action
+   or an error value, never a panic, never the macro recursion.  (With stored macros the replay may execute a text-area resize in the middle of a
    character, after which the C09 invariant is not available: that case is covered by stages C and S only.) *)
 Lemma astep_safe : forall fuel m ch, Inv09 (tm m) -> macros (ps m) = [] -> Safe (astep fuel m ch).
 Proof.
@@ -243,11 +247,11 @@ Proof.
     intros t0 p0 id _ E; rewrite E, HM; exact I.
 Qed.
 
-Definition SafeM (o : mout) : Prop := match o with MPanic s => KnownC01 s | _ => True end.
+Definition SafeM (o : mout) : Prop := match o with MPanic _ | MDiverge => False | _ => True end.
 Lemma fallback_safe : forall m ch, Inv09 (mt m) -> macros (ps (am m)) = [] -> SafeM (fallback m ch).
 Proof.
   intros m ch HI HM. unfold fallback. pose proof (astep_safe MACRO_FUEL (am m) ch HI HM) as G. unfold ansi_step.
-  destruct (astep MACRO_FUEL (am m) ch); cbn; auto.
+  destruct (astep MACRO_FUEL (am m) ch); exact G.
 Qed.
 Lemma mlift_safe : forall m r, okr r -> SafeM (mlift m r).
 Proof. intros m r [t' E]. rewrite E. exact I. Qed.
@@ -344,15 +348,57 @@ Proof.
     apply K. apply init_fg; lia.
 Qed.
 
-(* C01 (partial), the ANSI-based emulations: after ANY stream that executed no resize, on a state without stored macros,
-   the next character panics only at a known site *)
+(* C01 (partial), the ANSI parser: after ANY stream that executed no resize, on a state without stored macros,
+   the next character yields an action or an error value *)
 Lemma c01_next_char_proof : forall music bs w h cs m ch,
   1 <= w <= 132 -> 1 <= h <= 60 ->
   run EAnsi (init music bs w h) cs = RunOk m -> resized (ps (am m)) = false -> macros (ps (am m)) = [] ->
-  match step EAnsi m ch with MPanic s => KnownC01 s | _ => True end.
+  exists m', step EAnsi m ch = MOk m' \/ step EAnsi m ch = MErr m'.
 Proof.
   intros music bs w h cs m ch Hw Hh R NR NM.
   assert (H0 : InvA (am (init music bs w h))) by (intro; apply init_09; assumption).
   pose proof (run_good EAnsi cs _ _ eq_refl H0 R NR) as HI.
-  cbn [step]. exact (fallback_safe m ch HI NM).
+  cbn [step]. pose proof (fallback_safe m ch HI NM) as G.
+  destruct (fallback m ch) as [m1|m1|s|]; try contradiction; exists m1; auto.
+Qed.
+
+Lemma astep_ok_or_err : forall fuel m ch, Inv09 (tm m) -> macros (ps m) = [] ->
+  exists m', astep fuel m ch = OOk m' \/ astep fuel m ch = OErr m'.
+Proof.
+  intros fuel m ch HI HM. pose proof (astep_safe fuel m ch HI HM) as G.
+  destruct (astep fuel m ch) as [m1|m1|s|]; try contradiction; exists m1; auto.
+Qed.
+
+(* stream form without a side condition on the result: a stream runs through to a state, or the character at which it
+   stops was processed after a text-area resize or while a macro was stored (the two situations the per-character
+   theorem does not cover).  Any start state of the invariant. *)
+Definition Uncovered (m : mach) : Prop := resized (ps (am m)) = true \/ macros (ps (am m)) <> [].
+Lemma run_ansi_from : forall cs m, InvA (am m) ->
+  (exists m', run EAnsi m cs = RunOk m') \/
+  (exists pre c post m', cs = pre ++ c :: post /\ run EAnsi m pre = RunOk m' /\ Uncovered m').
+Proof.
+  induction cs as [|c r IH]; intros m HA; [left; eexists; reflexivity|].
+  destruct (resized (ps (am m))) eqn:NR.
+  { right. exists [], c, r, m. repeat split. left; exact NR. }
+  destruct (macros (ps (am m))) as [|mc ml] eqn:NM.
+  2:{ right. exists [], c, r, m. repeat split. right. rewrite NM. discriminate. }
+  pose proof (fallback_safe m c (HA NR) NM) as S1.
+  pose proof (step_good EAnsi m c eq_refl HA) as G1.
+  cbn [run step]. cbn [step] in G1.
+  destruct (fallback m c) as [m1|m1|s|] eqn:F; try contradiction.
+  - destruct (IH m1 G1) as [[m' E]|(pre & c' & post & m' & E1 & E2 & U)].
+    + left. exists m'. exact E.
+    + right. exists (c :: pre), c', post, m'. repeat split; [rewrite E1; reflexivity| |exact U].
+      cbn [run step]. rewrite F. exact E2.
+  - destruct (IH m1 G1) as [[m' E]|(pre & c' & post & m' & E1 & E2 & U)].
+    + left. exists m'. exact E.
+    + right. exists (c :: pre), c', post, m'. repeat split; [rewrite E1; reflexivity| |exact U].
+      cbn [run step]. rewrite F. exact E2.
+Qed.
+Lemma c01_ansi_stream_proof : forall music bs w h cs,
+  1 <= w <= 132 -> 1 <= h <= 60 ->
+  (exists m', run EAnsi (init music bs w h) cs = RunOk m') \/
+  (exists pre c post m', cs = pre ++ c :: post /\ run EAnsi (init music bs w h) pre = RunOk m' /\ Uncovered m').
+Proof.
+  intros music bs w h cs Hw Hh. apply run_ansi_from. intro. apply init_09; assumption.
 Qed.
